@@ -225,6 +225,23 @@ theorem copy_is_the_table_elsewhere (root root' : Root) (t : Tbl) :
 
 /-! ## (5) why the hypothesis is there -/
 
+/-- **base_path_does_not_follow_copy.**  A file that carries a base id is looked for at the ABSOLUTE location its base
+    path names, whatever root the table is opened at: the same path before and after a copy (`resolve` does not depend on
+    `root` for such a file).  This is the general reason behind the two counterexamples below. -/
+theorem base_path_does_not_follow_copy (root root' : Root) (b : Bases) (p : Path) (bid : Nat)
+    (h : baseIdOf b p = some bid) : resolve root b p = resolve root' b p := by
+  cases p with
+  | ver n => simp [baseIdOf] at h
+  | file c id sub => simp only [resolve, h, classDir]
+
+/-- … namely below the base path: `<base>/<DIR>/<file>` for a dataset-root base -/
+theorem based_file_location (root : Root) (b : Bases) (p : Path) (bid : Nat) (bp : BasePath)
+    (h : baseIdOf b p = some bid) (ht : lookup b.table bid = some bp) (hr : bp.isRoot = true) :
+    resolve root b p = some (bp.path ++ relSegs p) := by
+  cases p with
+  | ver n => simp [baseIdOf] at h
+  | file c id sub => simp [resolve, h, classDir, ht, hr, relSegs]
+
 def rootA : Root := [.lit "A".toList]
 def rootC : Root := [.lit "C".toList]
 def rootC' : Root := [.lit "C2".toList]
